@@ -1,9 +1,11 @@
 package core
 
 import (
+	"fmt"
 	"go/constant"
 	"go/token"
 	"go/types"
+	"os"
 	"strings"
 
 	"golang.org/x/tools/go/ssa"
@@ -18,14 +20,16 @@ import (
 // result unknown), which makes monotone-flag loops come out exactly.
 // ----------------------------------------------------------------------------
 
+var scnDebug = os.Getenv("SCN_DEBUG")
+
 type avKind uint8
 
 const (
 	avTop avKind = iota
 	avBool
 	avInt
-	avStr   // S is the exact value (Exact) or a known prefix
-	avRef   // nil-ness of pointer/interface/map/slice/func/chan values; errors carry a class
+	avStr // S is the exact value (Exact) or a known prefix
+	avRef // nil-ness of pointer/interface/map/slice/func/chan values; errors carry a class
 	avTuple
 )
 
@@ -50,16 +54,16 @@ type AV struct {
 
 var Top = AV{}
 
-func BoolAV(b bool) AV           { return AV{K: avBool, B: b} }
-func NilAV() AV                  { return AV{K: avRef, Nil: true} }
-func NonNilAV(e ErrClass) AV     { return AV{K: avRef, Nil: false, E: e} }
-func TupleAV(xs ...AV) AV        { return AV{K: avTuple, T: xs} }
-func StrAV(s string) AV          { return AV{K: avStr, S: s, Exact: true} }
-func PrefixAV(s string) AV       { return AV{K: avStr, S: s} }
-func IntAV(i int64) AV           { return AV{K: avInt, I: i} }
-func (a AV) IsTop() bool         { return a.K == avTop }
-func (a AV) IsTrue() bool        { return a.K == avBool && a.B }
-func (a AV) IsFalse() bool       { return a.K == avBool && !a.B }
+func BoolAV(b bool) AV       { return AV{K: avBool, B: b} }
+func NilAV() AV              { return AV{K: avRef, Nil: true} }
+func NonNilAV(e ErrClass) AV { return AV{K: avRef, Nil: false, E: e} }
+func TupleAV(xs ...AV) AV    { return AV{K: avTuple, T: xs} }
+func StrAV(s string) AV      { return AV{K: avStr, S: s, Exact: true} }
+func PrefixAV(s string) AV   { return AV{K: avStr, S: s} }
+func IntAV(i int64) AV       { return AV{K: avInt, I: i} }
+func (a AV) IsTop() bool     { return a.K == avTop }
+func (a AV) IsTrue() bool    { return a.K == avBool && a.B }
+func (a AV) IsFalse() bool   { return a.K == avBool && !a.B }
 
 func (a AV) equal(b AV) bool {
 	if a.K != b.K {
@@ -122,8 +126,9 @@ func joinAV(a, b AV) AV {
 }
 
 type vkey struct {
-	c *Ctx
-	v ssa.Value
+	c    *Ctx
+	v    ssa.Value
+	cell bool // the content of the memory cell allocated by v (an *ssa.Alloc), not the pointer
 }
 
 type env map[vkey]AV
@@ -174,8 +179,9 @@ type Scenario struct {
 }
 
 type pnode struct {
-	n  *Node
-	ph uint8
+	n    *Node
+	ph   uint8
+	part uint8 // trace partition: class (1 nil/true, 2 non-nil/false) of the last error/bool value returned by an inlined call
 }
 
 type ScnResult struct {
@@ -189,7 +195,7 @@ type ScnResult struct {
 func (g *XG) Run(sc Scenario) *ScnResult {
 	res := &ScnResult{G: g, Reach: map[pnode]bool{}, edges: map[pnode][]pnode{}}
 	in := map[pnode]env{}
-	start := pnode{sc.Start, 0}
+	start := pnode{sc.Start, 0, 0}
 	res.startKey = start
 	res.Reach[start] = true
 	it := &interp{g: g, sc: sc}
@@ -206,7 +212,13 @@ func (g *XG) Run(sc Scenario) *ScnResult {
 		if to == sc.Start {
 			ph = 1
 		}
-		tp := pnode{to, ph}
+		part := from.part
+		if from.n.Kind == KRet && to.Kind == KAfter {
+			if c := it.returnClass(from.n, e); c != 0 {
+				part = c
+			}
+		}
+		tp := pnode{to, ph, part}
 		e2 := it.edge(from.n, to, e)
 		old := in[tp]
 		first := old == nil
@@ -221,7 +233,7 @@ func (g *XG) Run(sc Scenario) *ScnResult {
 	// seed: out-state of the start node
 	e0 := env{}
 	if v, ok := sc.Start.Instr.(ssa.Value); ok && !sc.Result.IsTop() {
-		e0[vkey{sc.Start.Ctx, v}] = sc.Result
+		e0[vkey{c: sc.Start.Ctx, v: v}] = sc.Result
 	}
 	for _, s := range it.feasible(sc.Start, e0) {
 		flow(start, s.to, s.env)
@@ -315,12 +327,12 @@ func (it *interp) val(c *Ctx, v ssa.Value, e env) AV {
 		return constAV(v)
 	case *ssa.Function, *ssa.MakeClosure, *ssa.Alloc, *ssa.MakeMap, *ssa.MakeSlice, *ssa.MakeChan,
 		*ssa.FieldAddr, *ssa.IndexAddr, *ssa.Global, *ssa.MakeInterface:
-		if a, ok := e[vkey{c, v}]; ok {
+		if a, ok := e[vkey{c: c, v: v}]; ok {
 			return a
 		}
 		return NonNilAV(ErrOther)
 	}
-	if a, ok := e[vkey{c, v}]; ok {
+	if a, ok := e[vkey{c: c, v: v}]; ok {
 		return a
 	}
 	return Top
@@ -352,6 +364,18 @@ func (it *interp) transfer(n *Node, e env) {
 	if n.Instr == nil || n.Kind == KAfter || n.Kind == KHOHead || n.Kind == KDeferSkip {
 		return
 	}
+	if st, isStore := n.Instr.(*ssa.Store); isStore {
+		if c, al := it.cellOf(n.Ctx, st.Addr); al != nil {
+			a := it.val(n.Ctx, st.Val, e)
+			k := vkey{c, al, true}
+			if a.IsTop() {
+				delete(e, k)
+			} else {
+				e[k] = a
+			}
+		}
+		return
+	}
 	v, ok := n.Instr.(ssa.Value)
 	if !ok {
 		return
@@ -359,7 +383,7 @@ func (it *interp) transfer(n *Node, e env) {
 	if _, isDefer := n.Instr.(*ssa.Defer); isDefer {
 		return
 	}
-	k := vkey{n.Ctx, v}
+	k := vkey{c: n.Ctx, v: v}
 	a := it.eval(n, v, e)
 	if a.IsTop() {
 		delete(e, k)
@@ -394,6 +418,12 @@ func (it *interp) eval(n *Node, v ssa.Value, e env) AV {
 				if k := it.g.P.ConstGlobal(addr); k != nil {
 					return constAV(k)
 				}
+			case *ssa.Alloc, *ssa.FreeVar:
+				if cc, al := it.cellOf(c, addr); al != nil {
+					if a, ok := e[vkey{cc, al, true}]; ok {
+						return a
+					}
+				}
 			}
 		case token.ARROW:
 			return Top
@@ -426,6 +456,12 @@ func (it *interp) eval(n *Node, v ssa.Value, e env) AV {
 		}
 	case *ssa.MakeInterface:
 		return NonNilAV(ErrOther)
+	case *ssa.Index:
+		s := it.val(c, x.X, e)
+		i := it.val(c, x.Index, e)
+		if s.K == avStr && i.K == avInt && i.I >= 0 && int(i.I) < len(s.S) {
+			return IntAV(int64(s.S[i.I]))
+		}
 	case *ssa.Lookup:
 		// s[i] on a string with a known prefix
 		s := it.val(c, x.X, e)
@@ -584,6 +620,12 @@ func (it *interp) feasible(n *Node, e env) []succEnv {
 	}
 	if iff, ok := n.Instr.(*ssa.If); ok && n.Kind == KInstr && len(n.Succs) == 2 {
 		cv := it.val(n.Ctx, iff.Cond, e)
+		if scnDebug != "" && strings.Contains(it.g.P.InstrPos(n.Instr), scnDebug) {
+			fmt.Fprintf(os.Stderr, "SCN %s cond=%s val=%+v\n", it.g.Where(n), iff.Cond, cv)
+			if bo, ok := iff.Cond.(*ssa.BinOp); ok {
+				fmt.Fprintf(os.Stderr, "     X=%s:%+v Y=%s:%+v\n", bo.X, it.val(n.Ctx, bo.X, e), bo.Y, it.val(n.Ctx, bo.Y, e))
+			}
+		}
 		var out []succEnv
 		if !cv.IsFalse() {
 			et := e.clone()
@@ -607,7 +649,7 @@ func (it *interp) feasible(n *Node, e env) []succEnv {
 // refine records what a branch outcome tells about the operands of the condition.
 func (it *interp) refine(c *Ctx, cond ssa.Value, outcome bool, e env) {
 	if _, isConst := cond.(*ssa.Const); !isConst {
-		e[vkey{c, cond}] = BoolAV(outcome)
+		e[vkey{c: c, v: cond}] = BoolAV(outcome)
 	}
 	switch x := cond.(type) {
 	case *ssa.UnOp:
@@ -627,7 +669,7 @@ func (it *interp) refine(c *Ctx, cond ssa.Value, outcome bool, e env) {
 			cur := it.val(c, v, e)
 			if cur.IsTop() || (cur.K == avRef && a.K == avRef && !a.Nil && !cur.Nil && a.E == ErrAny) {
 				if cur.IsTop() {
-					e[vkey{c, v}] = a
+					e[vkey{c: c, v: v}] = a
 				}
 			}
 		}
@@ -655,9 +697,9 @@ func (it *interp) refine(c *Ctx, cond ssa.Value, outcome bool, e env) {
 			arg := x.Common().Args[0]
 			cur := it.val(c, arg, e)
 			if outcome {
-				e[vkey{c, arg}] = NonNilAV(ErrNotExist)
+				e[vkey{c: c, v: arg}] = NonNilAV(ErrNotExist)
 			} else if cur.K == avRef && !cur.Nil && cur.E == ErrAny {
-				e[vkey{c, arg}] = NonNilAV(ErrOther)
+				e[vkey{c: c, v: arg}] = NonNilAV(ErrOther)
 			}
 		}
 	}
@@ -676,9 +718,9 @@ func (it *interp) edge(from, to *Node, e env) env {
 			if i < len(args) {
 				a := it.val(from.Ctx, args[i], e)
 				if !a.IsTop() {
-					o[vkey{to.Ctx, p}] = a
+					o[vkey{c: to.Ctx, v: p}] = a
 				} else {
-					delete(o, vkey{to.Ctx, p})
+					delete(o, vkey{c: to.Ctx, v: p})
 				}
 			}
 		}
@@ -687,7 +729,7 @@ func (it *interp) edge(from, to *Node, e env) env {
 				if i < len(mc.Bindings) {
 					a := it.val(from.Ctx, mc.Bindings[i], e)
 					if !a.IsTop() {
-						o[vkey{to.Ctx, fv}] = a
+						o[vkey{c: to.Ctx, v: fv}] = a
 					}
 				}
 			}
@@ -712,7 +754,7 @@ func (it *interp) edge(from, to *Node, e env) env {
 				}
 				a = AV{K: avTuple, T: t}
 			}
-			k := vkey{to.Ctx, cv}
+			k := vkey{c: to.Ctx, v: cv}
 			if a.IsTop() {
 				delete(o, k)
 			} else {
@@ -752,7 +794,7 @@ func (it *interp) edge(from, to *Node, e env) env {
 						a = joinAV(a, v)
 					}
 				}
-				k := vkey{to.Ctx, ph}
+				k := vkey{c: to.Ctx, v: ph}
 				if first || a.IsTop() {
 					delete(o, k)
 				} else {
@@ -766,3 +808,213 @@ func (it *interp) edge(from, to *Node, e env) env {
 }
 
 func isJump(in ssa.Instruction) bool { _, ok := in.(*ssa.Jump); return ok }
+
+// PathAvoiding is ReachesAvoiding with a witness: the sequence of nodes from the start to the target.
+func (r *ScnResult) PathAvoiding(target, avoid func(*Node) bool) []*Node {
+	prev := map[pnode]pnode{}
+	seen := map[pnode]bool{r.startKey: true}
+	work := []pnode{r.startKey}
+	for len(work) > 0 {
+		p := work[0]
+		work = work[1:]
+		for _, s := range r.edges[p] {
+			if seen[s] {
+				continue
+			}
+			seen[s] = true
+			prev[s] = p
+			if avoid != nil && avoid(s.n) {
+				continue
+			}
+			if target(s.n) {
+				var path []*Node
+				for x := s; ; x = prev[x] {
+					path = append([]*Node{x.n}, path...)
+					if x == r.startKey {
+						break
+					}
+				}
+				return path
+			}
+			work = append(work, s)
+		}
+	}
+	return nil
+}
+
+// Must computes, on the subgraph that is feasible under the scenario, the events that have
+// certainly occurred before each node (intersection over feasible paths from the start).
+func (r *ScnResult) Must(tf func(*Node) Transfer) map[*Node]Bits {
+	in := map[pnode]Bits{}
+	out := map[pnode]Bits{}
+	preds := map[pnode][]pnode{}
+	for p, ss := range r.edges {
+		for _, s := range ss {
+			preds[s] = append(preds[s], p)
+		}
+	}
+	var all []pnode
+	for p := range r.Reach {
+		all = append(all, p)
+		in[p], out[p] = allBits, allBits
+	}
+	work := append([]pnode(nil), all...)
+	inWork := map[pnode]bool{}
+	for _, p := range work {
+		inWork[p] = true
+	}
+	for len(work) > 0 {
+		p := work[0]
+		work = work[1:]
+		inWork[p] = false
+		var i Bits
+		if p == r.startKey {
+			i = 0
+		} else {
+			i = allBits
+			for _, q := range preds[p] {
+				i &= out[q]
+			}
+		}
+		in[p] = i
+		t := tf(p.n)
+		o := (i &^ t.Kill) | t.Gen
+		if t.Reset {
+			o = t.Gen
+		}
+		if o != out[p] {
+			out[p] = o
+			for _, s := range r.edges[p] {
+				if !inWork[s] {
+					inWork[s] = true
+					work = append(work, s)
+				}
+			}
+		}
+	}
+	res := map[*Node]Bits{}
+	seen := map[*Node]bool{}
+	for p, b := range in {
+		if !seen[p.n] {
+			seen[p.n] = true
+			res[p.n] = b
+		} else {
+			res[p.n] &= b
+		}
+	}
+	return res
+}
+
+// cellOf resolves an address to a simple memory cell: a local *ssa.Alloc (possibly reached through the
+// free variable of a closure whose context is on the chain) that is only ever stored to directly in its
+// owner function and only loaded elsewhere.  Returns the context owning the cell and the Alloc.
+func (it *interp) cellOf(c *Ctx, addr ssa.Value) (*Ctx, *ssa.Alloc) {
+	switch a := addr.(type) {
+	case *ssa.Alloc:
+		if simpleCell(a) {
+			return c, a
+		}
+	case *ssa.FreeVar:
+		// find the closure creation that bound this free variable
+		idx := -1
+		for i, fv := range c.Fn.FreeVars {
+			if fv == a {
+				idx = i
+			}
+		}
+		if idx < 0 || c.Parent == nil || c.CallNode == nil || c.CallNode.Call == nil {
+			return nil, nil
+		}
+		var mc *ssa.MakeClosure
+		if m, ok := c.CallNode.Call.Value.(*ssa.MakeClosure); ok && m.Fn == ssa.Value(c.Fn) {
+			mc = m
+		}
+		for _, arg := range c.CallNode.Call.Args {
+			if m, ok := arg.(*ssa.MakeClosure); ok && m.Fn == ssa.Value(c.Fn) {
+				mc = m
+			}
+		}
+		if mc == nil || idx >= len(mc.Bindings) {
+			return nil, nil
+		}
+		return it.cellOf(c.Parent, mc.Bindings[idx])
+	}
+	return nil, nil
+}
+
+var simpleCellCache = map[*ssa.Alloc]bool{}
+
+func simpleCell(al *ssa.Alloc) bool {
+	if v, ok := simpleCellCache[al]; ok {
+		return v
+	}
+	ok := true
+	if al.Referrers() == nil {
+		ok = false
+	} else {
+		for _, r := range *al.Referrers() {
+			switch x := r.(type) {
+			case *ssa.Store:
+				if x.Addr != ssa.Value(al) {
+					ok = false
+				}
+			case *ssa.UnOp:
+				if x.Op != token.MUL {
+					ok = false
+				}
+			case *ssa.DebugRef:
+			case *ssa.MakeClosure:
+				f, isFn := x.Fn.(*ssa.Function)
+				if !isFn {
+					ok = false
+					break
+				}
+				for i, b := range x.Bindings {
+					if b != ssa.Value(al) || i >= len(f.FreeVars) {
+						continue
+					}
+					fv := f.FreeVars[i]
+					if fv.Referrers() == nil {
+						continue
+					}
+					for _, fr := range *fv.Referrers() {
+						if u, isLoad := fr.(*ssa.UnOp); !isLoad || u.Op != token.MUL {
+							if _, dbg := fr.(*ssa.DebugRef); !dbg {
+								ok = false
+							}
+						}
+					}
+				}
+			default:
+				ok = false
+			}
+		}
+	}
+	simpleCellCache[al] = ok
+	return ok
+}
+
+// returnClass classifies the last result of a return: 1 = nil error / true, 2 = non-nil error / false, 0 = other.
+// Paths returning values of different classes are kept in different trace partitions, so that the
+// caller's test of the returned error stays correlated with what happened inside the callee.
+func (it *interp) returnClass(n *Node, e env) uint8 {
+	ret, ok := n.Instr.(*ssa.Return)
+	if !ok || len(ret.Results) == 0 {
+		return 0
+	}
+	last := ret.Results[len(ret.Results)-1]
+	a := it.val(n.Ctx, last, e)
+	switch {
+	case isErrorType(last.Type()) && a.K == avRef:
+		if a.Nil {
+			return 1
+		}
+		return 2
+	case a.K == avBool:
+		if a.B {
+			return 1
+		}
+		return 2
+	}
+	return 0
+}
